@@ -105,6 +105,7 @@ func Load(repo string) (*Prog, error) {
 		p.ModFuncs = append(p.ModFuncs, fn)
 	}
 	sort.Slice(p.ModFuncs, func(i, j int) bool { return p.ModFuncs[i].String() < p.ModFuncs[j].String() })
+	progForFacts = p
 	if len(p.ModFuncs) < 500 {
 		return nil, fmt.Errorf("only %d module functions found; loader is broken", len(p.ModFuncs))
 	}
